@@ -71,7 +71,8 @@ def run(ctx, tier):
     for r, t in (("I1", "credentials/port setters guarded by cannot_have_credentials_or_port()"),
                  ("I2", "state-override refusals and default-port elision in all four copies of parse_scheme"),
                  ("I3", "set_host_or_hostname refusals precede the first mutation, identical in both types"),
-                 ("I4", "port writers"), ("I5", "scheme writers store lower-case schemes")):
+                 ("I4", "port writers"), ("I5", "scheme writers store lower-case schemes"),
+                 ("I6", "no refusal test is statically dead (compares a value against a constant it is known not to hold)")):
         ctx.rule(r, t)
     cfgs = C.configs_for(tier, thorough=["release", "devchecks", "amalgamated", "nopattern"])
     fxs = C.load_configs(ctx, cfgs)
@@ -146,7 +147,54 @@ def atomic_conds(blocks):
     return out
 
 
+def check_dead_tests(ctx, fx):
+    """I6.  In the scheme / host / credential setters and their helpers, an `x == CONST` (or !=) test evaluated where
+    must-facts already fix x to a different named constant can never take its other edge: a refusal written that way
+    never refuses.  (Typical cause: testing the classification of the raw input in the branch that handles the inputs
+    whose raw classification failed.)"""
+    n = 0
+    targets = []
+    for q in ("ada::url::parse_scheme", "ada::url_aggregator::parse_scheme_with_colon", "ada::url::set_host_or_hostname",
+              "ada::url_aggregator::set_host_or_hostname", "ada::url::set_scheme", "ada::url_aggregator::set_scheme",
+              "ada::url::set_protocol", "ada::url_aggregator::set_protocol", "ada::url::set_port", "ada::url_aggregator::set_port",
+              "ada::url::parse_port", "ada::url_aggregator::parse_port"):
+        targets += [f for f in fx.fns(q, must=False) if "blocks" in f]
+    for f in targets:
+        mf = MustFlow(f)
+        for b in f["blocks"]:
+            t = b["term"]
+            c = t.get("econd") if t.get("econd") is not None else t.get("cond")
+            if c is None or t.get("constexpr_if"):
+                continue
+            c0 = X.strip(c)
+            while isinstance(c0, dict) and c0.get("k") == "un" and c0.get("op") == "!":
+                c0 = X.strip(c0["e"])
+            if not (isinstance(c0, dict) and c0.get("k") == "bin" and c0.get("op") in ("==", "!=")):
+                continue
+            for a, k in ((c0["l"], c0["r"]), (c0["r"], c0["l"])):
+                k0 = X.strip(k)
+                if not (isinstance(k0, dict) and k0.get("k") == "ref" and k0.get("kind") in ("enumerator", "global") and "cv" in k0):
+                    continue
+                pth = X.path(a)
+                if not pth:
+                    continue
+                fs = mf.facts_before(b["id"], len(b["stmts"]))
+                if fs is None:
+                    continue
+                n += 1
+                mine = k0.get("qname", k0.get("name"))
+                known = [x.split("==", 1)[1] for x in fs if x.startswith("eq:%s==" % pth)]
+                clash = [v for v in known if v != mine]
+                ctx.check("I6", "%s: test `%s`" % (f["key"].split("(")[0], (t.get("econd_text") or t.get("cond_text") or "")[:60]),
+                          not clash, "the tested value is not fixed by the path",
+                          "on every path to this test `%s` is known to equal %s, so comparing it with %s always gives the same answer: "
+                          "the refusal / branch it guards is dead code" % (X.show(a), clash[0] if clash else "", mine),
+                          where=(t.get("loc") or "").replace("/repo/", ""))
+    ctx.floor("I6", n, 8, "comparisons of a path against a named constant in the scheme/host/port setters")
+
+
 def check(ctx, fx):
+    check_dead_tests(ctx, fx)
     # ---- I1 ----
     n1 = 0
     for cls in TYPES:
